@@ -4,19 +4,20 @@
 #   verif_shape_slice_XYZ / verif_slice_XYZ     1-d a[start:stop:step], XYZ in {i,n}^3 (i = int part, n = None part): all 8 encodings
 #   verif_*_2d_int_ii                           a[i, start:stop]         (integer drops its axis; 2-tuple slice encoding)
 #   verif_*_ell                                 a[i, ::step, ..., j]     rank 3..8 symbolic; Ellipsis loop closed by a loop contract
+#   verif_shape_dynamic_slice_1 / verif_dynamic_slice_1   run-time list encoding nmtools_array<array<int,3>,1> = [[start,stop,step]]
 # Spec (spec/c05.h) = port of CPython's slice.indices(); postconditions: kept axis extent == Python's length; element k of the kept
 # axis is source element start' + k*step.  Genuine deviations of nmtools from Python are recorded per wrapper as input regions in
-# known_findings.json (36 regions); the contracts are PROVED on the complement of those regions.
+# known_findings.json (43 regions); the contracts are PROVED on the complement of those regions.
 META = dict(
     level='proof',
     level_text='Every wrapper contract (shape_slice: kept-axis extent == CPython slice.indices length, integers drop their axis, Ellipsis '
                'keeps its axes; slice: source index == start\' + k*step) is discharged by CBMC (dfcc, bit-precise incl. the float '
                'ceil(range/step) kernel) for ALL int start/stop, all extents 1..2^31-1 and symbolic rank 3..8 for the Ellipsis case, on the '
-               'complement of the 36 recorded known-finding regions. Index contracts hold for every int step != 0 (the library\'s own '
+               'complement of the 43 recorded known-finding regions. Index contracts hold for every int step != 0 (the library\'s own '
                'k*step product is uninterpreted in UF mode); length contracts with an integer step are proved for 1 <= |step| <= 3 '
                '(the property\'s quantifier; float-vs-integer division equivalence is SAT-infeasible for wide divisors). start\'+k*step '
                'in [0,n) is a Lean lemma about the spec; checked directly by CBMC where step is None. The two Ellipsis loops are closed '
-               'by loop contracts; no code loop is unwound.',
+               'by loop contracts; the only unwound code loops are those of shape_dynamic_slice/dynamic_slice over a slice list of compile-time length 1.',
     level_note='Large parts of the input space are excluded as genuine defects (negative steps, crossed/out-of-range bounds, negative start with '
                'stop None, ranges > 2^24): see known_findings.json. What is proved is the remaining Python-conforming core. Length with |step| > 3 '
                'is not covered. Trusted: clang AST, cxx2c rendering, CBMC/CaDiCaL, Lean core, textual C<->Lean correspondence of py_slice_adjust.',
@@ -41,7 +42,8 @@ META = dict(
         'inputs inside the known-finding regions are excluded (requires !(region)); each region is re-confirmed natively on every run',
     ],
     not_covered=[
-        'run-time slice lists (shape_dynamic_slice / dynamic_slice over nmtools_list<either<...>> or array<int,3>) and the agreement packed vs dynamic',
+        'run-time slice lists with either-typed parts (nmtools_list<either<int,ellipsis,tuple,...>>), lists of more than one entry, 2-element [start,stop] entries; '
+        'the run-time array<int,3> encoding is covered for a one-entry list only (agreement with the packed encoding follows from the common spec)',
         'view::slice / view::apply_slice / mutable_slice glue (only the index functions are under contract)',
         'length for |step| > 3 (incl. the UB of -step for step == INT_MIN)',
         'unsigned / size_t / compile-time-constant (ct<>) slice parts; fixed (std::array) and tuple shapes',
